@@ -409,7 +409,9 @@ class WGen:
         self.toks()
         self.step("count", 1)
         kind = r.choice(["good", "lookalike", "lookalike-only", "young", "unconfirmed", "foreign-sender", "attest-bad", "attest-good",
-                         "orphan-race", "reinclude", "malformed", "unknown-tx"])
+                         "orphan-race", "reinclude", "malformed", "unknown-tx", "multi", "multi", "multi"])
+        if kind == "multi":
+            return self.reobs_multi()
         ts = -5000
         cl = r.choice([0, 1, 2, 5])
         if kind == "young":
@@ -453,6 +455,64 @@ class WGen:
         self.step(None)
         self.raise_height(1)
         return finish_scenario(self.sc, "gen", "reobs")
+
+    def reobs_multi(self, order=None, foreign=None, young=None):
+        """C08 re-observation of a transaction that carries SEVERAL messages of the core contract with different consistency
+        levels: some are deep enough when the request is served, others are not (both orders, two or three events,
+        optionally one of them from a foreign sender, optionally a mainnet transfer still under the wall-clock floor)."""
+        r = self.r
+        if young is None:
+            young = r.random() < 0.2
+        self.new(mainnet=True if young else None, page=r.choice([1, 2, 3]))
+        self.toks()
+        self.step("count", 1)
+        b = self.block(ts=-5000)
+        low, high = r.choice([0, 1, 2]), r.choice([20, 50, 100])
+        cls = order or r.choice([[low, high], [high, low], [low, high, low + 1], [high, low, high + 7], [high, high + 3, low]])
+        fpos = foreign if foreign is not None else (r.randrange(len(cls)) if r.random() < 0.3 else -1)
+        first = None
+        for i, cl in enumerate(cls):
+            kw = dict(cl=cl, tb=(i != fpos))
+            if young and cl == low and i != fpos:
+                kw["kind"] = "other"        # not a transfer: no mainnet floor, only the height rule and cl intervals
+            e = self.good(b, tx=first["tx"] if first else None, **kw)
+            first = first or e
+        self.step(None)
+        self.raise_height(r.choice([3, 5, 8]))
+        self.step(None)
+        self.op(op="req", tx=first["tx"])
+        if r.random() < 0.5:
+            self.step(r.choice([None, "status", "events-tx"]), 1)
+            self.raise_height(1)
+        if r.random() < 0.3:
+            self.step(None)
+            self.op(op="req", tx=first["tx"])
+        return finish_scenario(self.sc, "gen", "reobs:multi")
+
+    def hold(self):
+        """C09 schedule control: new events arrive while NOTHING is pending (height poller idle); the answer to the page
+        request (or to the metadata call of that poll) is held back for many poll intervals, so that whatever the other
+        goroutines do in that window happens before the batch reaches the handler.  The messages must still come out."""
+        r = self.r
+        self.new(page=r.choice([1, 2, 3]))
+        self.sc["pollMs"] = r.choice([2, 3])
+        self.toks()
+        self.old_events()
+        self.step("count", 1)
+        rounds = r.choice([1, 1, 2])
+        for k in range(rounds):
+            if k:
+                self.step(None)         # the earlier batch is confirmed and forwarded: pending is empty again
+            route = r.choice(["page", "page", "multicall"])
+            self.op(op="hold", route=route, ms=r.choice([40, 60, 90]))
+            b = self.block(ts=-5000)
+            if route == "multicall":
+                self.good(b, kind="attest", tok="t1", claim="m1", cl=0)
+            for _ in range(r.choice([1, 2])):
+                self.good(b, cl=r.choice([0, 0, 1]))
+            self.step(None)
+            self.raise_height(r.choice([2, 3]))
+        return finish_scenario(self.sc, "gen", "hold")
 
     def apifail(self):
         """C08 under node API errors at any call: the round / batch is abandoned, Run may end and is restarted."""
@@ -930,6 +990,28 @@ def pinned(prop):
         g.step(None); g.raise_height(2)
         g.step(None); g.op(op="req", tx=e["tx"])
         done(g, "reobs-reincluded-tx")
+        # a re-observed tx with several messages of different consistency levels: only the deep-enough ones may come out
+        for name, order, fpos in (("low-high", [1, 50], -1), ("high-low", [50, 1], -1), ("three", [50, 1, 2], -1),
+                                  ("foreign-low", [0, 50, 1], 0)):
+            g = WGen(random.Random(0))
+            sc = None
+            g.r = random.Random("multi-" + name)
+            sc = g.reobs_multi(order=order, foreign=fpos, young=False)
+            if sc is None:
+                raise vlib.Broken("pinned scenario reobs-multi-%s violates the time margins" % name)
+            sc["src"], sc["family"] = "pinned", "pinned:reobs-multi-" + name
+            res.append(sc)
+        # count / page race on the polling path: the surplus events must not be fetched (and forwarded) twice
+        for page, extra in ((2, 1), (1, 2), (3, 2)):
+            g = start(page=page)
+            b = g.block(ts=-5000)
+            g.good(b, cl=0); g.good(b, cl=1)
+            g.step("count", 2)
+            for _ in range(extra):
+                g.good(b, cl=0)
+            g.step(None); g.raise_height(2)
+            g.step(None); g.raise_height(1)
+            done(g, "append-after-count-p%d" % page)
         # polling path: orphaned before confirmation, foreign sender, mismatching attestation, cl not reached
         g = start()
         b = g.block(ts=-5000)
@@ -948,6 +1030,16 @@ def pinned(prop):
         g.good(b, cl=0)
         g.step(None); g.raise_height(2)
         done(g, "append-after-count")
+        # schedule control: the page answer of the poll that finds the first new event is held for 60 ms while nothing is pending
+        for route in ("page", "multicall"):
+            g = start(page=2)
+            g.op(op="hold", route=route, ms=60)
+            b = g.block(ts=-5000)
+            if route == "multicall":
+                g.good(b, kind="attest", tok="t1", claim="m1", cl=0)
+            g.good(b, cl=0)
+            g.step(None); g.raise_height(2)
+            done(g, "held-" + route + "-while-idle")
         # one malformed event between two good ones
         for bad in ("chain70000", "fields5"):
             g = start(page=3)
